@@ -158,6 +158,14 @@ impl Gen {
                                 self.queue.push_back(IsoInput { target: t, data: x, origin: format!("{d} of {n}") });
                             }
                         }
+                        // DER inputs: every length byte at its neighbours
+                        if name == "pkcs7-signature" {
+                            for (n, b) in self.seeds.clone() {
+                                for (d, x) in mutate::der_length_sweep(&b, 400) {
+                                    self.queue.push_back(IsoInput { target: t, data: x, origin: format!("{d} of {n}") });
+                                }
+                            }
+                        }
                         // decimal numbers of text inputs at their boundaries (the three smallest seeds)
                         let mut small: Vec<(String, Vec<u8>)> = self.seeds.iter().filter(|s| s.1.len() <= 8192).cloned().collect();
                         small.sort_by_key(|s| s.1.len());
